@@ -1103,6 +1103,13 @@ def run(tier):
               'the command starts and is private to the check (process and, '
               'with thread pools, thread): the accepted/rejected verdict is '
               'the one of this candidate (shared with C01.R4)', sub01)
+    from . import c06 as _c06
+    sub6 = Check('C06', 'other', tier, [], [])
+    chk.guard(_c06.rule_r8, sub6, prog)
+    chk.adopt('C09.R11', 'the golden run and the candidates are named after '
+              'the input file the user gave: the path options are not '
+              'replaced by resolved or derived paths (a resolved symlink '
+              'has another extension; shared with C06.R8)', sub6)
     extra = None
     if tier == 'thorough':
         from .. import selftest
